@@ -115,6 +115,7 @@ func runC11(c *runCtx) {
 		// undeclared text that merely talks about declarations: nothing in it is a declaration of its own encoding
 		"notes on html: write <meta charset=\"windows-1252\"> caf\xc3\xa9 in the head", "latin text \x85 says <meta charset=\"iso-8859-1\"> here", "ascii only <meta charset=koi8-r> end",
 		"x <?xml version=\"1.0\" encoding=\"koi8-r\"?> caf\xe9", "see <meta http-equiv=\"Content-Type\" content=\"text/html; charset=utf-16\"> d\xe9j\xe0 vu",
+		"<?note encoding=\"UTF-8\"?>\ncaf\xe9 cr\xe8me\n", "<?pi encoding=\"koi8-r\"?> ascii only\n", " \n<?memo encoding='iso-8859-1'?>\nWait\x85\n", "<?x encoding=\"windows-1252\"?>caf\xc3\xa9",
 		"caf\xef\xbf\xbd au lait (a real U+FFFD)\n", "price: 10 \xe2\x82\xac \xef\xbf\xbd\xef\xbf\xbd ok", "\xef\xbf\xbd", "\xef\xbf\xbe noncharacter \xf4\x8f\xbf\xbf",
 	}
 	// long texts whose charset-deciding bytes lie far behind the default limit, examined under larger limits
